@@ -71,6 +71,14 @@ def _all(tier):
     out.append({"circuit": {"kind": "pipe", "base": bases[4], "ops": [["square"], ["square"]]}})
     out.append({"circuit": {"kind": "pipe", "base": bases[6], "ops": [["square"], ["multiply_other"]]}})
     out.append({"circuit": {"kind": "pipe", "base": b3, "ops": [["multiply_conj"]]}})
+    # operands whose paired sum layers have DIFFERENT arities (1 x 2, 2 x 1, 2 x 3), in both orders
+    n1 = H(name="nary-sum", K=2, arity=1, input="cat-logits")
+    n2 = H(name="nary-sum", K=2, arity=2, input="cat-logits")
+    n3 = H(name="nary-sum", K=2, arity=3, input="embedding2")
+    e1 = H(name="nary-sum", K=2, arity=1, input="embedding2")
+    e2 = H(name="nary-sum", K=2, arity=2, input="embedding2")
+    for a_, b_ in ((n1, n2), (n2, n1), (e1, n3), (n3, e2), (e2, n3)):
+        out.append({"circuit": {"kind": "pipe", "base": a_, "ops": [["multiply_other", b_]]}, "hetero": True})
     return out
 
 
@@ -85,8 +93,10 @@ def cases(tier, seed):
     if tier == "quick":
         # members whose product needs > 5 min of solver time run in the thorough tier only
         allc = [c for c in allc if not _heavy(c)]
+        core = [c for c in allc if c.get("hetero")]
+        allc = [c for c in allc if not c.get("hetero")]
         rnd.shuffle(allc)
-        for i, c in enumerate(allc[:32]):
+        for i, c in enumerate(core + allc[:30]):
             ss = sems_for(c)
             d = dict(c)
             d["semiring"] = ss[(i + seed) % len(ss)]
